@@ -21,7 +21,7 @@ from fractions import Fraction
 
 import numpy as np
 
-from .. import core, embed, lat, tlaval
+from .. import core, embed, geomheap, lat, tlaval
 from ..core import Part
 
 META = dict(
@@ -175,6 +175,7 @@ def apply_step(mesh, names, h, emb):
     s = h["s"]
     nd = len(mesh.n)
     ip = bool(s["inplace"])
+    geomheap.warm(mesh)     # derived attributes are read once before every step: none of them may go stale
     if s["op"] == "translate":
         return mesh.translate([emb.length(v) for v in s["v"][:nd]], inplace=ip)
     ref = None if s["ref"] == "default" else tuple(emb.x(v) for v in h["rp"])
